@@ -5,10 +5,20 @@
 //!   `betav n a1 b1 … an bn`                                                  -> `= y1 … yn`
 //! `digamma` recurses once per unit step below 6, so requests with x < -100000 (or -inf) are refused as
 //! `! diverged` here and in the model (the real function would overflow the stack / never return).
+//! `erf(NaN)` recurses forever (`x >= 0.` and `-x >= 0.` are both false) until the stack overflows and the process
+//! aborts; such a request is refused as `! diverged` too (the model's `erfF` runs out of fuel there).
 use compute::functions::{beta, digamma, erf, gamma, ln_gamma};
 use cvexec::*;
 
 const DIGAMMA_MIN: f64 = -100000.0;
+
+fn er(x: f64) -> Option<f64> {
+    if x.is_nan() {
+        None
+    } else {
+        Some(erf(x))
+    }
+}
 
 fn dg(x: f64) -> Option<f64> {
     if x < DIGAMMA_MIN {
@@ -27,7 +37,10 @@ fn step(_: &mut (), t: &mut Toks) -> R<String> {
             let y = match op {
                 "gamma" => gamma(x),
                 "lngamma" => ln_gamma(x),
-                "erf" => erf(x),
+                "erf" => match er(x) {
+                    Some(y) => y,
+                    None => return Ok("! diverged".to_string()),
+                },
                 _ => match dg(x) {
                     Some(y) => y,
                     None => return Ok("! diverged".to_string()),
@@ -49,7 +62,10 @@ fn step(_: &mut (), t: &mut Toks) -> R<String> {
                 ys.push(match op {
                     "gammav" => gamma(x),
                     "lngammav" => ln_gamma(x),
-                    "erfv" => erf(x),
+                    "erfv" => match er(x) {
+                        Some(y) => y,
+                        None => return Ok("! diverged".to_string()),
+                    },
                     _ => match dg(x) {
                         Some(y) => y,
                         None => return Ok("! diverged".to_string()),
